@@ -318,8 +318,11 @@ def check(pid, tier, replay_file):
         'wall_s': round(time.time() - t0, 2),
         'violations': violations,
     }
-    ev = VERIF / 'evidence' / f'{pid}.json'
-    ev.parent.mkdir(exist_ok=True)
+    # evidence/ describes runs against /repo itself; a run against another source tree (VERIF_REPO, used to try
+    # seeded changes) writes its record next to the replays instead
+    ev_dir = VERIF / 'evidence' if str(core.REPO) == '/repo' else VERIF / 'replays' / 'evidence-other-tree'
+    ev = ev_dir / f'{pid}.json'
+    ev.parent.mkdir(parents=True, exist_ok=True)
     ev.write_text(json.dumps(evidence, indent=None, sort_keys=True) + '\n')
     for ln in out_lines:
         print(ln)
